@@ -14,7 +14,7 @@ def one(pf):
             r = subprocess.run(f"patch -p1 -s -d {tmp} < {pf}", shell=True, stdout=subprocess.PIPE, stderr=subprocess.STDOUT)
             if r.returncode:
                 return pf, None, "patch does not apply: " + r.stdout.decode()[-200:]
-        out = subprocess.run(["/verif/bin/jrpcheck", "-repo", tmp, "-property", "all", "-no-evidence", "-json"], stdout=subprocess.PIPE, stderr=subprocess.STDOUT).stdout.decode()
+        out = subprocess.run([os.environ.get("JRPCHECK", "/verif/bin/jrpcheck"), "-repo", tmp, "-property", "all", "-no-evidence", "-json"], stdout=subprocess.PIPE, stderr=subprocess.STDOUT).stdout.decode()
         try:
             obls = json.loads(out.strip().split("\n")[-1])
         except Exception:
